@@ -143,4 +143,195 @@ theorem bases_le {r : Recs} {sf : SymFile} (hb : build r = .ok sf) {base instr :
             omega
         | bare h0 hl hfr => subst hfr; cases hsrc
 
+/-! ## 3. the source line is that of the line record (or outermost inline call site) covering the address -/
+
+theorem mem_finOf_inls {f : Func} {x : Inl} : x ∈ (finOf f).inls ↔ x ∈ f.inls := List.mem_mergeSort
+
+theorem mem_finOf_lines {f : Func} {l : Line} (h : l ∈ (finOf f).lines) : l ∈ f.lines :=
+  (List.mem_filter.mp h).1
+
+theorem inlineeAt_covers {f : Func} {d a : Nat} {x : Inl}
+    (h : inlineeAt (finOf f).inls d a = .ok (some x)) : x ∈ f.inls ∧ x.depth = d ∧ x.Covers a := by
+  obtain ⟨hm, hd, h1, h2, h3⟩ := inlineeAt_sound h
+  exact ⟨mem_finOf_inls.mp hm, hd, h3, h1, h2⟩
+
+theorem lineAt_covers {f : Func} {a : Nat} {l : Line} (h : lineAt (finOf f) a = some l) :
+    l ∈ f.lines ∧ l.Covers a := by
+  obtain ⟨hm, h0, h1, h2, h3⟩ := lineAt_sound (b := finOf f) rfl h
+  exact ⟨mem_finOf_lines hm, h0, h3, h1, h2⟩
+
+/-- **C11.4 `line_covers`** — "the source line is that of the line record (or outermost inline
+    call site) covering the address". A reported source location `(file, line, base)` belongs to a
+    FUNC record of the file containing the address, and is either the call site stored in a
+    depth-0 INLINE range of that FUNC that contains the address, or — only if no depth-0 inlinee is
+    found — a line record of that FUNC whose range contains the address; `base` is that record's
+    own start plus the module base, `file` the FILE record of its file id. -/
+theorem line_covers {r : Recs} {sf : SymFile} (hb : build r = .ok sf) {base instr : Nat}
+    {fr : Frame} (h : fillSymbol sf base instr = .ok fr) {file : Name} {line lbase : Nat}
+    (hsrc : fr.src = some (file, line, lbase)) :
+    ∃ f ∈ r.funcs, f.Covers (instr - base) ∧
+      ((∃ x ∈ f.inls, x.depth = 0 ∧ x.Covers (instr - base) ∧
+          mapGet r.files x.callFile = some file ∧ line = x.callLine ∧ lbase = x.addr + base) ∨
+       (inlineeAt (finOf f).inls 0 (instr - base) = .ok none ∧
+          ∃ l ∈ f.lines, l.Covers (instr - base) ∧
+            mapGet r.files l.file = some file ∧ line = l.line ∧ lbase = l.addr + base)) := by
+  have B := build_built hb
+  by_cases hlt : instr < base
+  · rw [fillSymbol_below hlt] at h; cases h; cases hsrc
+  · have hge : base ≤ instr := by omega
+    cases hf : funcAt sf.funcs sf.ftab (instr - base) with
+    | none =>
+      rcases fillSymbol_nofunc hge hf h with rfl | ⟨p, _, _, _, rfl⟩ <;> cases hsrc
+    | some b =>
+      obtain ⟨_, hc⟩ := fillSymbol_func hge hf h
+      obtain ⟨f, hfm, rfl, hcov⟩ := funcAt_is_record hb hf
+      refine ⟨f, hfm, hcov, ?_⟩
+      cases hc with
+      | inlined x fr0 inl h0 hs hl hfr =>
+        subst hfr
+        left
+        obtain ⟨hm, hd, hxc⟩ := inlineeAt_covers h0
+        rcases setSource_ok hs with ⟨_, rfl⟩ | ⟨file', hfile, _, rfl⟩
+        · cases hsrc
+        · simp only [Option.some.injEq, Prod.mk.injEq] at hsrc
+          obtain ⟨rfl, rfl, rfl⟩ := hsrc
+          rw [B.files] at hfile
+          exact ⟨x, hm, hd, hxc, hfile, rfl, rfl⟩
+      | line l h0 hl hs =>
+        right
+        obtain ⟨hm, hlc⟩ := lineAt_covers hl
+        rcases setSource_ok hs with ⟨_, rfl⟩ | ⟨file', hfile, _, rfl⟩
+        · cases hsrc
+        · simp only [Option.some.injEq, Prod.mk.injEq] at hsrc
+          obtain ⟨rfl, rfl, rfl⟩ := hsrc
+          rw [B.files] at hfile
+          exact ⟨h0, l, hm, hlc, hfile, rfl, rfl⟩
+      | bare h0 hl hfr => subst hfr; cases hsrc
+
+/-! ## 4. inline frames: the nested inlined calls covering the address, with their call sites -/
+
+/-- **C11.6 `inline_loop_terminates`** — the `for depth in 1..` loop of `fill_symbol` returns
+    within `number of inlinees + 1` rounds (the fuel the model gives it), whatever the records:
+    every round that goes on has found an inlinee of exactly the current depth. -/
+theorem inline_loop_terminates (sf : SymFile) (f : BFunc) (addr depth origin : Nat) :
+    inlineLoop sf f addr (f.inls.length + 1) depth origin ≠ none := by
+  apply inlineLoop_ne_none
+  have := List.length_filter_le (fun x : Inl => decide (depth ≤ x.depth)) f.inls
+  omega
+
+/-- **C11.5 `inline_chain`** — "inline frames list the nested inlined calls covering [the
+    address] with their call sites". If a FUNC `f` is reported, then either no depth-0 inlinee
+    is found and there are no inline frames, or there are INLINE ranges `x₀, x₁, …, x_m` of that
+    FUNC record with depths `0, 1, …, m`, every one containing the address, no inlinee is found at
+    depth `m+1`, the source location of the frame is `x₀`'s call site, and the inline frames are
+    `chainFrames`: the frame for depth `k` is named by `x_k`'s origin and carries the call site
+    stored in `x_{k+1}` (shifted by one depth); the last one carries the innermost line record
+    (`lastInline`, cf. `lineAt_covers`). Order: outermost first (as passed to `add_inline_frame`). -/
+theorem inline_chain {r : Recs} {sf : SymFile} (hb : build r = .ok sf) {base instr : Nat}
+    {fr : Frame} (h : fillSymbol sf base instr = .ok fr) (hge : base ≤ instr) {b : BFunc}
+    (hf : funcAt sf.funcs sf.ftab (instr - base) = some b) :
+    ∃ f ∈ r.funcs, b = finOf f ∧
+      ((inlineeAt b.inls 0 (instr - base) = .ok none ∧ fr.inl = []) ∨
+       ∃ x0 xs,
+         (∀ k x, (x0 :: xs)[k]? = some x → x ∈ f.inls ∧ x.depth = k ∧ x.Covers (instr - base)) ∧
+         inlineeAt b.inls (xs.length + 1) (instr - base) = .ok none ∧
+         fr.src = (mapGet r.files x0.callFile).map (fun file => (file, x0.callLine, x0.addr + base)) ∧
+         fr.inl = chainFrames sf b (instr - base) x0.origin xs) := by
+  have B := build_built hb
+  obtain ⟨_, hc⟩ := fillSymbol_func hge hf h
+  obtain ⟨f, hfm, rfl, hcov⟩ := funcAt_is_record hb hf
+  refine ⟨f, hfm, rfl, ?_⟩
+  cases hc with
+  | inlined x fr0 inl h0 hs hl hfr =>
+    subst hfr
+    right
+    obtain ⟨xs, h1, h2, h3⟩ := inlineLoop_chain _ _ _ _ _ _ _ hl
+    refine ⟨x, xs, ?_, by rw [Nat.add_comm]; exact h2, ?_, h3⟩
+    · intro k y hk
+      cases k with
+      | zero =>
+        simp at hk; subst hk
+        exact inlineeAt_covers h0
+      | succ k =>
+        simp at hk
+        have := inlineeAt_covers (h1 k y hk)
+        rw [Nat.add_comm] at this; exact this
+    · rw [← B.files]
+      rcases setSource_ok hs with ⟨hnone, rfl⟩ | ⟨file', hfile, _, rfl⟩
+      · simp [hnone]
+      · simp [hfile]
+  | line l h0 hl hs =>
+    left
+    refine ⟨h0, ?_⟩
+    rcases setSource_ok hs with ⟨_, rfl⟩ | ⟨file', _, _, rfl⟩ <;> rfl
+  | bare h0 hl hfr => subst hfr; exact .inl ⟨h0, rfl⟩
+
+/-- the innermost location attached to the last inline frame is that of a line record of the
+    FUNC covering the address (or nothing) -/
+theorem lastInline_covers (sf : SymFile) (f : Func) (a origin : Nat) (fr : InlineFrame)
+    (h : fr ∈ lastInline sf (finOf f) a origin) :
+    mapGet sf.origins origin = some fr.name ∧
+    ((lineAt (finOf f) a = none ∧ fr.file = none ∧ fr.line = none) ∨
+     ∃ l ∈ f.lines, l.Covers a ∧ fr.file = mapGet sf.files l.file ∧
+       fr.line = if l.line ≠ 0 then some l.line else none) := by
+  unfold lastInline at h
+  cases hl : lineAt (finOf f) a with
+  | none =>
+    rw [hl] at h
+    simp only at h
+    split at h
+    · rename_i name hn
+      simp only [List.mem_singleton] at h
+      subst h
+      exact ⟨hn, .inl ⟨rfl, rfl, rfl⟩⟩
+    · cases h
+  | some l =>
+    rw [hl] at h
+    simp only at h
+    obtain ⟨hm, hc⟩ := lineAt_covers hl
+    split at h
+    · rename_i name hn
+      simp only [List.mem_singleton] at h
+      subst h
+      exact ⟨hn, .inr ⟨l, hm, hc, rfl, rfl⟩⟩
+    · cases h
+
+/-- **C11.5b `frames_innermost_first`** — "innermost first in the stack frame":
+    `fill_source_line_info` (what `walk_stack` runs for every frame) yields, for a module
+    `[base, base+msize)` containing the instruction, exactly `fill_symbol`'s answer with the inline
+    frames reversed — the deepest inlined call comes first; outside the module nothing is filled. -/
+theorem frames_innermost_first (sf : SymFile) (base msize instr : Nat) (fr' : Frame)
+    (h : fillSourceLineInfo sf base msize instr = .ok fr') :
+    (fr' = {} ∧ ¬ (0 < msize ∧ base + msize ≤ U64MAX ∧ base ≤ instr ∧ instr < base + msize)) ∨
+    ∃ fr, fillSymbol sf base instr = .ok fr ∧ fr'.fn = fr.fn ∧ fr'.src = fr.src ∧
+      fr'.inl = fr.inl.reverse ∧ fr'.inl.head? = fr.inl.getLast? := by
+  unfold fillSourceLineInfo at h
+  split at h
+  · rename_i hr
+    cases h
+    left
+    refine ⟨rfl, ?_⟩
+    intro ⟨h1, h2, _, _⟩
+    unfold mkRange at hr
+    rw [if_neg (by omega), if_neg (by omega)] at hr
+    cases hr
+  · rename_i rg hr
+    split at h
+    · rename_i hc
+      split at h
+      · cases h
+      · rename_i fr hfr
+        cases h
+        right
+        exact ⟨fr, hfr, rfl, rfl, rfl, by simp⟩
+    · rename_i hc
+      cases h
+      left
+      refine ⟨rfl, ?_⟩
+      intro ⟨h1, h2, h3, h4⟩
+      obtain ⟨_, _, w3, w4⟩ := mkRange_wf hr
+      apply hc
+      simp only [Rng.contains, Bool.and_eq_true, decide_eq_true_eq]
+      omega
+
 end MdModel.Symbolize
